@@ -23,9 +23,14 @@ def run(ctx):
             except Exception as e:
                 res.count("load_raised_" + core.exc_name(e)); continue
             is_sm = isinstance(sf, SMSimfile)
-            if not is_sm and not all(objs.ssc_chart_has_notes(c) for c in sf.charts):
-                res.count("ssc_chart_without_notes"); continue
-            params = c01.sm_params(sf) if is_sm else c02.ssc_params(sf)
+            try:
+                if not is_sm and not all(objs.ssc_chart_has_notes(c) for c in sf.charts):
+                    res.count("ssc_chart_without_notes"); continue
+                params = c01.sm_params(sf) if is_sm else c02.ssc_params(sf)
+            except Exception as e:
+                # the loaded object cannot even be inspected (its properties and charts read): it did not load to a usable simfile
+                res.case({"text": t[:400], "strict": strict})
+                res.violation({"text": t[:1500], "strict": strict}, "a text loaded, but the loaded simfile's properties/charts cannot be read", impl=core.exc_name(e)); continue
             if not objs.scan_safe(params, lead_nl=len(sf) == 0):
                 res.count("skipped_unsafe_for_msdparser"); continue
             d = objs.dump(sf)
